@@ -559,10 +559,13 @@ def run(rep, tier):
     del CURVES[:]
     curve_table(rep, us[aspecs[0].label])
     ncap = 0
-    ncov = 0
+    ncov = nform = 0
+    from props import c02_formulas
     for s_ in aspecs:
         ncap += comb_capacity(rep, us[s_.label], list(CURVES))
         ncov += comb_coverage(rep, us[s_.label])
+        nform += c02_formulas.check(rep, us[s_.label], EC_H)
+    rep.floor("group-law formula instances (polynomial domain)", nform, 30)
     rep.floor("comb multipliers", ncap, 2)
     rep.floor("comb evaluators (coverage)", ncov, 2)
     return driver.finish(
@@ -571,8 +574,10 @@ def run(rep, tier):
         "Decided: every configuration builds and dispatches to declared functions; no status dropped; locals and "
         "precompute-table elements initialised before use (element index agreement); exceptional-case tests guard "
         "the general formulas with the right polarity and scalar 0 never enters a ladder; a flag copied into a local point is not wiped by a later initialiser (R-KILL); all built-in curve records "
-        "are arithmetically consistent (checked with python big integers). NOT decided: that the formulas implement "
-        "the group law or that algorithms agree on the resulting point." % (len(res), len(us)),
+        "are arithmetically consistent (checked with python big integers); the Jacobian doubling (single, repeated, both a-branches), "
+        "addition and mixed-addition routines compute the textbook formulas, compared projectively as polynomials in the input "
+        "coordinates (R-POLY). NOT decided: the affine formulas (they need a modular inverse), the exceptional-case handling beyond "
+        "the guards above, and that the scalar-multiplication algorithms agree on the resulting point." % (len(res), len(us)),
         ["python big-integer arithmetic and Miller-Rabin with 12 bases for the curve records",
          "bn_cmp in {-1,0,1}; bn_is_zero/bn_is_one in {0,1}"], TRUSTED)
 
